@@ -2,6 +2,8 @@ import PqVerif.Props.C11
 #print axioms Pq.C11.fresh_simulator_draws
 #print axioms Pq.C11.same_seed_same_samples
 #print axioms Pq.C11.different_seed_different_stream
+#print axioms Pq.C11.reseed_replays
+#print axioms Pq.C11.reseed_same_seed_same_samples
 #print axioms Pq.C11.jobRanges_partition
 #print axioms Pq.C11.jobRanges_zero_threads
 #print axioms Pq.C11.grayOf_injective
